@@ -16,9 +16,11 @@ import (
 
 // svcInfo is what the harness learns from gen/<svc>/service.go.
 type svcInfo struct {
-	Dir       string // directory name under gen/
-	Pkg       string // package name
-	Design    string // ServiceName constant
+	UnionVals []string // types implementing a union marker method with a value receiver (unionMembers)
+	UnionPtrs []string // ... with a pointer receiver
+	Dir       string   // directory name under gen/
+	Pkg       string   // package name
+	Design    string   // ServiceName constant
 	Methods   []methInfo
 	Auth      []methInfo
 	ErrTypes  []string
@@ -232,6 +234,8 @@ func (b *Batch) WriteHarness(d *Design) error {
 		if _, err := os.Stat(filepath.Join(genDir, "http", e.Name(), "server", "server.go")); err == nil {
 			si.HasHTTP = true
 		}
+		// Go types of the union alternatives (the value builder needs them to build OneOf attributes)
+		si.UnionVals, si.UnionPtrs, _ = unionMembers(filepath.Join(genDir, e.Name(), "service.go"))
 		svcs = append(svcs, si)
 	}
 	sort.Slice(svcs, func(i, j int) bool { return svcs[i].Dir < svcs[j].Dir })
@@ -253,6 +257,7 @@ func (b *Batch) WriteHarness(d *Design) error {
 	}
 	imports["rt"] = "verif.local/lab/rt"
 	imports["context"] = "context"
+	imports["reflect"] = "reflect"
 	src.WriteString("// Code generated by the lab harness. DO NOT EDIT.\npackage main\n\nimport (\n")
 	aliases := make([]string, 0, len(imports))
 	for a := range imports {
@@ -262,7 +267,7 @@ func (b *Batch) WriteHarness(d *Design) error {
 	for _, a := range aliases {
 		fmt.Fprintf(&src, "\t%s %q\n", a, imports[a])
 	}
-	src.WriteString(")\n\nvar _ context.Context\n\n")
+	src.WriteString(")\n\nvar _ context.Context\nvar _ reflect.Type\n\n")
 	for i, si := range svcs {
 		alias := fmt.Sprintf("svc%d", i)
 		fmt.Fprintf(&src, "type stub%d struct{ h *rt.Hooks }\n\n", i)
@@ -334,6 +339,13 @@ func (b *Batch) WriteHarness(d *Design) error {
 			} else {
 				fmt.Fprintf(&src, "\t\t\t\t%q: *new(svc%d.%s),\n", kv[0], i, kv[1])
 			}
+		}
+		src.WriteString("\t\t\t},\n\t\t\tUnionTypes: []reflect.Type{\n")
+		for _, n := range si.UnionVals {
+			fmt.Fprintf(&src, "\t\t\t\treflect.TypeOf(*new(svc%d.%s)),\n", i, n)
+		}
+		for _, n := range si.UnionPtrs {
+			fmt.Fprintf(&src, "\t\t\t\treflect.TypeOf((*svc%d.%s)(nil)),\n", i, n)
 		}
 		src.WriteString("\t\t\t},\n\t\t},\n")
 	}
